@@ -101,8 +101,10 @@ func FindValuePackage(n ssa.Value) fn.Optional[string] {
 			// the package of a method is the package of its receiver
 			pkg = node.Params[0].Parent().Package()
 		}
-		if pkg != nil {
-			return fn.Some(pkg.String())
+		if pkg != nil && pkg.Pkg != nil {
+			// the package path, as for statically resolved callees (pkg.String() is "package <path>", which an anchored
+			// package pattern does not match)
+			return fn.Some(pkg.Pkg.Path())
 		}
 		return fn.None[string]()
 	}
@@ -278,7 +280,8 @@ func isAliasEntrypoint(pointer *pointer.Result, node *ssa.Call, f func(config.Co
 	for _, label := range ptr.PointsTo().Labels() {
 		funcValue := label.Value().Name()
 		funcPackage := FindValuePackage(label.Value())
-		if funcPackage.IsSome() && f(config.CodeIdentifier{Package: funcPackage.Value(), Method: funcValue}) {
+		if funcPackage.IsSome() &&
+			f(config.CodeIdentifier{Context: node.Parent().String(), Package: funcPackage.Value(), Method: funcValue}) {
 			return true
 		}
 	}
